@@ -250,7 +250,8 @@ async def amain(spec: dict) -> dict:
         n_cmds = len(rec['commands_sent'])
         sig = None                     # no signal in the second run
         try:
-            await asyncio.wait_for(nl.reset(), timeout=10)
+            n_rec = {k: len(rec[k]) for k in ('run_info', 'trace_info', 'prompt_info', 'stdout', 'run_no')}
+            await asyncio.wait_for(nl.reset(**spec.get('second_reset', {})), timeout=10)
 
             async def go2() -> None:
                 async with nl.run_session():
@@ -263,6 +264,8 @@ async def amain(spec: dict) -> dict:
         except BaseException as e:  # noqa
             rec['second_finished'] = False
             rec['errors'].append(f'second run: {type(e).__name__}: {e}')
+        await asyncio.sleep(0.05)
+        rec['second_records'] = {k: rec[k][n:] for k, n in locals().get('n_rec', {}).items()}
         rec['second_hooks'] = rec['hooks'][n_hooks:]
         rec['second_commands_sent'] = rec['commands_sent'][n_cmds:]
         rec['second_state'] = nl.state
